@@ -28,7 +28,7 @@ OSS = [1, 2, 3, 10, 10]
 
 def gen_keys(rng, n, K):
     """n keys over the universe 0..K-1; patterns aimed at ties across run / window boundaries."""
-    pat = rng.below(7)
+    pat = rng.below(8)
     if pat == 0:
         ks = [rng.below(K) for _ in range(n)]
     elif pat == 1:                                   # sorted
@@ -44,20 +44,24 @@ def gen_keys(rng, n, K):
         ks = ks[:n]
     elif pat == 5:                                   # periodic
         off = rng.below(K); ks = [(i + off) % K for i in range(n)]
+    elif pat == 7:                                   # organ pipe: up then down
+        up = sorted(rng.below(K) for _ in range((n + 1) // 2)); down = sorted((rng.below(K) for _ in range(n // 2)), reverse=True)
+        ks = up + down
     else:                                            # one outlier among equal keys
         k = rng.below(K); ks = [k] * n
         if n: ks[rng.below(n)] = rng.below(K)
     return ks, pat
 
 
-def mk_case(elem, stable, split, cmp_, p, os_, keys):
+def mk_case(elem, stable, split, cmp_, p, os_, keys, variant=None):
     return "%s %s %s %s %d %d %s" % (elem, "S" if stable else "U", split, cmp_, p, os_,
-                                      ",".join(map(str, keys)) if keys else "-")
+                                      ",".join(map(str, keys)) if keys else "-") + (" " + variant if variant else "")
 
 
 def parse_case(c):
-    elem, stab, split, cmp_, p, os_, keys = c.split()
-    return {"elem": elem, "stable": stab == "S", "split": split, "greater": cmp_ == "G", "p": int(p), "os": int(os_),
+    toks = c.split()
+    elem, stab, split, cmp_, p, os_, keys = toks[:7]
+    return {"variant": toks[7] if len(toks) > 7 else "avk5", "elem": elem, "stable": stab == "S", "split": split, "greater": cmp_ == "G", "p": int(p), "os": int(os_),
             "keys": [] if keys == "-" else [int(x) for x in keys.split(",")]}
 
 
@@ -105,11 +109,65 @@ def property_verdict(case, line):
     return None
 
 
+
+# ---------------------------------------------------------------- API surface of tlx/sort/parallel_mergesort.hpp
+# variant token: entry (a = parallel_mergesort / stable_parallel_mergesort, b = parallel_mergesort_base<Stable>), iterator
+# (v = std::vector iterator, p = raw pointer, d = std::deque iterator), comparator (k = aggregate functor with state,
+# n = stateful functor without default constructor, l = lambda closure, - = none passed: Comparator() = std::less<T>),
+# number of arguments passed (2 = begin,end; 3 = +comp; 4 = +num_threads; 5 = +mwmsa; the rest take their defaults).
+# (variant, element type, stable, harness set)
+VARIANTS = [("apk5", "pair", True, 1), ("adk5", "pair", False, 1), ("avn5", "pair", True, 1), ("avl5", "pair", False, 1),
+            ("adn5", "trk", True, 1), ("av-2", "int", False, 1),
+            ("avk4", "pair", True, 2), ("avk3", "pair", False, 2), ("av-2", "pair", True, 2), ("bvk5", "pair", False, 2),
+            ("bdl4", "pair", True, 2), ("bpn3", "trk", False, 2)]
+VARIANT_SET = {(v, e): k for v, e, _, k in VARIANTS}
+API_SURFACE = [
+    {"entry": "tlx::parallel_mergesort(begin, end, comp, num_threads, mwmsa)", "called": True, "by": "every default case (variant avk5), all three element types"},
+    {"entry": "tlx::stable_parallel_mergesort(begin, end, comp, num_threads, mwmsa)", "called": True, "by": "every default case (variant avk5)"},
+    {"entry": "tlx::parallel_mergesort_base<false>(...)", "called": True, "by": "variants bvk5 (5 args), bpn3 (3 args)"},
+    {"entry": "tlx::parallel_mergesort_base<true>(...)", "called": True, "by": "variant bdl4 (4 args)"},
+    {"entry": "default comparator (Comparator() = std::less<value_type>), i.e. (begin, end) only", "called": True, "by": "variants av-2 on int (unstable) and on (key,index) elements (stable)"},
+    {"entry": "explicit comparator, default num_threads = std::thread::hardware_concurrency() and default mwmsa", "called": True, "by": "variants avk3, bpn3 (thread count read from the harness with --hw; skipped if it reports 0)"},
+    {"entry": "explicit num_threads, default mwmsa (MWMSA_DEFAULT = MWMSA_EXACT)", "called": True, "by": "variants avk4, bdl4"},
+    {"entry": "mwmsa = MWMSA_EXACT / MWMSA_SAMPLING explicit", "called": True, "by": "all 5-argument variants, both values"},
+    {"entry": "mwmsa = MWMSA_LAST", "called": False, "by": "not a splitting algorithm (enum end marker): neither branch runs and pieces stay uninitialised - outside the property"},
+    {"entry": "num_threads = 0", "called": False, "by": "n / num_threads divides by zero; the property quantifies over thread counts >= 1 (hardware_concurrency() may legally return 0: the default-thread variants are skipped then)"},
+    {"entry": "iterator kinds: std::vector<T>::iterator / T* / std::deque<T>::iterator", "called": True, "by": "v: default; p: apk5, bpn3; d: adk5, adn5, bdl4"},
+    {"entry": "element types: int (trivial), (key,index)+writer tag, heap-owning ledger type", "called": True, "by": "default cases; ledger type also through deque / pointer variants"},
+    {"entry": "element type: move-only", "called": False, "by": "does not compile: the sort copies its input with std::uninitialized_copy and merges with copy assignment (CopyConstructible + CopyAssignable required)"},
+    {"entry": "comparators: less / greater by key (aggregate functor with state)", "called": True, "by": "default cases (L / G)"},
+    {"entry": "comparator: stateful, not default-constructible", "called": True, "by": "variants avn5, adn5, bpn3"},
+    {"entry": "comparator: lambda closure", "called": True, "by": "variants avl5, bdl4"},
+    {"entry": "comparator disagreeing with the element's operator<", "called": True, "by": "every G case; counted for sampling with >= 2 threads in input_distribution.sampling_comparator_not_natural_order"},
+    {"entry": "global tlx::parallel_multiway_merge_oversampling (1, 2, 3, 10)", "called": True, "by": "every case"},
+    {"entry": "#if defined(_OPENMP) thread creation", "called": False, "by": "the harness is built without OpenMP, as the library's own tests; the std::thread branch is the one modelled"},
+]
+
+# ---------------------------------------------------------------- build (three harness executables, in parallel)
+from concurrent.futures import ThreadPoolExecutor
+REPO_SRC = ["tlx/algorithm/parallel_multiway_merge.cpp"]
+found = False
+with ThreadPoolExecutor(3) as ex:
+    builds = [ex.submit(ck.build_cpp, "c06_harness_%d" % k, ["harness/C06/pms_harness.cpp"], None, REPO_SRC, ["-DC06_SET=%d" % k])
+              for k in (0, 1, 2)]
+    builds = [f.result() for f in builds]
+exes = [b[0] for b in builds]
+exe = exes[0]
+log = "\n".join(b[1][-1500:] for b in builds if b[0] is None)
+if None in exes:
+    exe = None
+hw = 0
+if exe is not None:
+    r_, o_ = verif.sh([exe, "--hw"], timeout=60)
+    try:
+        hw = int(o_.strip().splitlines()[-1])
+    except (ValueError, IndexError):
+        hw = 0
 # ---------------------------------------------------------------- cases
 corpus_file = os.path.join(verif.VERIF, "corpus", "C06", "cases.txt")
 cases = [l.strip() for l in open(corpus_file) if l.strip() and not l.startswith("#")]
 ncorpus = len(cases)
-hist = {"corpus": ncorpus, "grid": 0, "few_per_thread": 0, "large": 0}
+hist = {"corpus": ncorpus, "grid": 0, "few_per_thread": 0, "many_threads": 0, "api_variants": 0, "large": 0}
 pat_hist = {}
 if ck.replay:
     cases = [json.load(open(ck.replay))["case"]]
@@ -140,10 +198,37 @@ else:
                         cases.append(mk_case(rng.choice(["pair", "pair", "trk"]), rng.chance(3, 4), split,
                                              "G" if rng.chance(1, 2) else "L", p, rng.choice(OSS), keys))
                         hist["few_per_thread"] = hist.get("few_per_thread", 0) + 1
+    # more threads than cores: p = 25..33 around n = p (n < p, = p, p +- 1, 2p) and a few more elements
+    for rep in range(reps):
+        for p in range(25, 34):
+            for n in (1, 2, p - 1, p, p + 1, 2 * p - 1, 2 * p, 40, 70):
+                for split in ("E", "X"):
+                    keys, pat = gen_keys(rng, n, rng.choice([1, 2, 3, 4]))
+                    pat_hist[pat] = pat_hist.get(pat, 0) + 1
+                    cases.append(mk_case(rng.choice(ELEMS), rng.chance(2, 3), split, "G" if rng.chance(1, 4) else "L",
+                                         p, rng.choice(OSS), keys))
+                    hist["many_threads"] = hist.get("many_threads", 0) + 1
+    # API variants (entry point / iterator kind / comparator kind / defaulted arguments), chosen per case from the seed
+    nvar = 5000 if ck.thorough() else 900
+    for _ in range(nvar):
+        variant, elem, stable, _set = rng.choice(VARIANTS)
+        nargs = int(variant[3])
+        p = rng.choice([1, 2, 3, 4, 5, 7, 8, 12, 16])
+        split = rng.choice(["E", "X"]); cmp_ = "G" if rng.chance(1, 3) else "L"
+        if nargs <= 4: split = "E"                       # mwmsa defaulted
+        if nargs <= 3:
+            if hw < 1: continue                          # hardware_concurrency() unknown: thread count not determined
+            p = hw
+        if nargs == 2: cmp_ = "L"                        # std::less<T> = natural order
+        n = rng.choice([0, 1, 2, p - 1, p, p + 1, 2 * p + 1, rng.range(0, 45), rng.range(0, 45)])
+        keys, pat = gen_keys(rng, max(0, n), rng.choice([1, 2, 3, 4, 50]))
+        pat_hist[pat] = pat_hist.get(pat, 0) + 1
+        cases.append(mk_case(elem, stable, split, cmp_, p, rng.choice(OSS), keys, variant))
+        hist["api_variants"] = hist.get("api_variants", 0) + 1
     # larger random inputs: sizes around multiples of the thread count, duplicate-heavy and near-unique keys
     nlarge = 400 if ck.thorough() else 60
     for _ in range(nlarge):
-        p = rng.choice([1, 2, 3, 4, 5, 7, 8, 13, 16, 17, 24, 32])
+        p = rng.choice([1, 2, 3, 4, 5, 7, 8, 13, 16, 17, 24, 32, 33])
         base = rng.choice([p, 2 * p, 64, 100, 257, 500, 1000, 1500 if ck.thorough() else 700])
         n = max(0, base + rng.range(-2, 2))
         K = rng.choice([1, 2, 3, 4, 13, 100, 100000])
@@ -156,15 +241,12 @@ casefile = os.path.join(ck.scratch, "cases.txt")
 open(casefile, "w").write("\n".join(cases) + "\n")
 
 # ---------------------------------------------------------------- run both sides
-REPO_SRC = ["tlx/algorithm/parallel_multiway_merge.cpp"]
-found = False
-exe, log = ck.build_cpp("c06_harness", ["harness/C06/pms_harness.cpp"], repo_sources=REPO_SRC)
 drv, dlog = ck.ocaml_driver("C06")
 distinct = set()
 samples = []
 stats = {"stable": 0, "unstable": 0, "exact": 0, "sampling": 0, "int": 0, "pair": 0, "trk": 0,
          "n<=1": 0, "n<threads": 0, "n_not_multiple_of_threads": 0, "tie_across_window_boundary": 0,
-         "sampling_comparator_not_natural_order": 0}
+         "sampling_comparator_not_natural_order": 0, "some_thread_merges_nothing": 0}
 tsan = None
 
 
@@ -185,29 +267,38 @@ elif drv is None:
     ck.violation("extracted model/driver does not build", {"correspondence": "ocaml/C06_driver.ml", "log": dlog[-2000:]}, no_input=True)
 else:
     env = dict(os.environ, ASAN_OPTIONS="detect_leaks=1", UBSAN_OPTIONS="print_stacktrace=1")
-    # the harness spends its time creating real threads under ASan: run 4 contiguous chunks of the case file in parallel
-    from concurrent.futures import ThreadPoolExecutor
-    NJOBS = 4
-    bounds = [len(cases) * k // NJOBS for k in range(NJOBS + 1)]
-    chunk_files = []
-    for k in range(NJOBS):
+    # the harness spends its time creating real threads under ASan: the default cases run as 3 contiguous chunks on the main
+    # executable, the API-variant cases on the two variant executables, all in parallel
+    def exe_of(c):
+        pc_ = parse_case(c)
+        return exes[VARIANT_SET.get((pc_["variant"], pc_["elem"]), 0) if pc_["variant"] != "avk5" else 0]
+    main_idx = [i for i, c in enumerate(cases) if exe_of(c) == exes[0]]
+    jobs = []                                            # (exe, [case indices])
+    for k in range(3):
+        part = main_idx[len(main_idx) * k // 3:len(main_idx) * (k + 1) // 3]
+        if part: jobs.append((exes[0], part))
+    for e_ in exes[1:]:
+        part = [i for i, c in enumerate(cases) if exe_of(c) == e_]
+        if part: jobs.append((e_, part))
+    job_files = []
+    for k, (e_, part) in enumerate(jobs):
         cf = os.path.join(ck.scratch, "cases_%d.txt" % k)
-        open(cf, "w").write("\n".join(cases[bounds[k]:bounds[k + 1]]) + "\n")
-        chunk_files.append(cf)
-    with ThreadPoolExecutor(NJOBS + 1) as ex:
+        open(cf, "w").write("\n".join(cases[i] for i in part) + "\n")
+        job_files.append(cf)
+    with ThreadPoolExecutor(len(jobs) + 1) as ex:
         fm = ex.submit(verif.sh, [drv, casefile], 3000)
-        fs = [ex.submit(verif.sh, [exe, cf], 3000, None, env) for cf in chunk_files]
+        fs = [ex.submit(verif.sh, [e_, cf], 3000, None, env) for (e_, _), cf in zip(jobs, job_files)]
         rc2, out2 = fm.result()
-        chunk_res = [f.result() for f in fs]
-    # stitch the chunks together; a chunk that died early truncates the implementation's line list at that point
-    impl = []; rc1 = 0; out1 = ""
-    for k, (r, o) in enumerate(chunk_res):
+        job_res = [f.result() for f in fs]
+    # put the lines back in case order; a job that died early leaves the rest of its cases without a line
+    impl = [None] * len(cases); rc1 = 0; out1 = ""; crashed = []          # crashed: (case index, exe, log)
+    for (e_, part), (r, o) in zip(jobs, job_res):
         ls = [l for l in o.splitlines() if l.startswith("keys=") or l == "?"]
-        impl += ls
-        if len(ls) != bounds[k + 1] - bounds[k]:
-            rc1 = r if r != 0 else 1; out1 = o
-            break
-        if r != 0 and rc1 == 0:
+        for i, l in zip(part, ls):
+            impl[i] = l
+        if len(ls) < len(part):
+            crashed.append((part[len(ls)], e_, o))
+        elif r != 0 and rc1 == 0:
             rc1 = r; out1 = o                        # e.g. LeakSanitizer report at exit; all lines present
     model = out2.splitlines()
     if rc2 != 0 or len(model) != len(cases):
@@ -217,10 +308,13 @@ else:
     footprint_diffs = []
     prop_reports = 0
     for idx, c in enumerate(cases):
-        if idx >= len(impl) or idx >= len(model):
+        if idx >= len(model):
             break
+        if impl[idx] is None:
+            continue
         a = impl[idx].strip(); b = model[idx].strip()
         pc = parse_case(c); n = len(pc["keys"]); p = pc["p"]
+        stats["variant_" + pc["variant"]] = stats.get("variant_" + pc["variant"], 0) + 1
         stats["stable" if pc["stable"] else "unstable"] += 1
         stats["exact" if pc["split"] == "E" else "sampling"] += 1
         stats[pc["elem"]] += 1
@@ -230,6 +324,9 @@ else:
         if pc["greater"] and pc["split"] == "X" and min(n, p) >= 2: stats["sampling_comparator_not_natural_order"] += 1
         if n >= 2 and min(n, p) >= 2: distinct.add(c)
         fb = fields(b)
+        if pc["elem"] == "pair" and n >= 2:
+            nwin = len(ints(fb["win"])) if fb.get("win") not in (None, "-", "") else 0
+            if nwin < min(n, p): stats["some_thread_merges_nothing"] += 1
         if fb.get("win") not in (None, "-", ""):
             ks = ints(fb["keys"]); pos = 0
             for w in ints(fb["win"])[:-1]:
@@ -254,30 +351,29 @@ else:
                      {"case": c, "impl": a[:600], "model": b[:600], "correspondence": "harness/C06/pms_harness.cpp vs coq/C06/PMS.v",
                       "footprint_differences_total": len(footprint_diffs)},
                      no_input=True)
-    if rc1 != 0 and (ck.violations == 0 or len(impl) < len(cases)):
-        if len(impl) < len(cases):
-            # crash (sanitizer / signal) in the middle: the first case without an output line
-            c = cases[len(impl)]
-            r, o = run_one(exe, c, env)
-            found = True
-            ck.violation("real (stable_)parallel_mergesort crashes under ASan/UBSan on a valid input" if r != 0 else
-                         "real (stable_)parallel_mergesort crashed under ASan/UBSan in a batch run (not reproduced alone)",
-                         {"case": c, "sanitizer_report_head": san_head(o if r != 0 else out1),
-                          "log_tail": (o if r != 0 else out1)[-1500:]})
-        else:
-            ck.violation("sanitizer report at exit of the harness (rc=%d) although every case printed a clean line" % rc1,
-                         {"correspondence": "harness/C06/pms_harness.cpp", "log_tail": out1[-2500:]}, no_input=True)
+    for ci, e_, o_ in crashed[:2]:
+        # crash (sanitizer / signal) in the middle of a job: the first case of that job without an output line
+        c = cases[ci]
+        r, o = run_one(e_, c, env)
+        found = True
+        ck.violation("real (stable_)parallel_mergesort crashes under ASan/UBSan on a valid input" if r != 0 else
+                     "real (stable_)parallel_mergesort crashed under ASan/UBSan in a batch run (not reproduced alone)",
+                     {"case": c, "sanitizer_report_head": san_head(o if r != 0 else o_),
+                      "log_tail": (o if r != 0 else o_)[-1500:]})
+    if rc1 != 0 and ck.violations == 0:
+        ck.violation("sanitizer report at exit of the harness (rc=%d) although every case printed a clean line" % rc1,
+                     {"correspondence": "harness/C06/pms_harness.cpp", "log_tail": out1[-2500:]}, no_input=True)
     pick = [0, ncorpus, ncorpus + 4321, len(cases) - 1]
-    samples = [{"case": cases[i][:300], "result": impl[i][:300]} for i in pick if 0 <= i < len(impl)]
+    samples = [{"case": cases[i][:300], "result": impl[i][:300]} for i in pick if 0 <= i < len(impl) and impl[i] is not None]
 
     # ------------------------------------------------------------ thorough: ThreadSanitizer build on a subset
     if ck.thorough() and ck.violations == 0 and not ck.replay:
         texe, tlog = ck.build_cpp("c06_harness_tsan", ["harness/C06/pms_harness.cpp"], repo_sources=REPO_SRC,
-                                  flags=["-std=c++17", "-O1", "-g", "-fsanitize=thread"])
+                                  flags=["-std=c++17", "-O1", "-g", "-fsanitize=thread"], extra=["-DC06_SET=0"])
         if texe is None:
             tsan = {"built": False}
         else:
-            sub = cases[:ncorpus] + [c for i, c in enumerate(cases[ncorpus:]) if i % 9 == 0 and len(c) < 2500][:4000]
+            sub = cases[:ncorpus] + [c for i, c in enumerate(cases[ncorpus:]) if i % 9 == 0 and len(c) < 2500 and parse_case(c)["variant"] == "avk5"][:4000]
             tf = os.path.join(ck.scratch, "tsan_cases.txt"); open(tf, "w").write("\n".join(sub) + "\n")
             rc3, out3 = verif.sh([texe, tf], timeout=3000, env=dict(os.environ, TSAN_OPTIONS="halt_on_error=1 second_deadlock_stack=1"))
             lines3 = [l for l in out3.splitlines() if l.startswith("keys=")]
@@ -297,7 +393,8 @@ ck.finish({
     "evaluations": len(cases),
     "distinct_nontrivial": len(distinct),
     "rule": "one case per grid point (n 0..70) x (threads 1..20) x (exact, sampling) x (key universe 1..4) [x5 in the thorough tier], one per "
-            "(threads 9..24) x (17 <= n < 2*threads) x (exact, sampling) x (2, 3 keys), plus "
+            "(threads 9..24) x (17 <= n < 2*threads) x (exact, sampling) x (2, 3 keys), threads 25..33 around n = threads, API variants "
+            "(entry point / iterator kind / comparator kind / defaulted arguments, see api_surface) drawn per case, plus "
             "larger random inputs; pattern, element type (int / (key,index) with writer tags / heap-owning ledger type), stable or not, "
             "less or greater, oversampling 1/2/3/10 drawn per case. Non-trivial = n >= 2 and at least two threads after clamping "
             "(runs are split, partitioned and merged); distinct = distinct case text. Each case runs on the real sort with real "
@@ -305,6 +402,8 @@ ck.finish({
             "position), live-instance delta and ledger errors are compared; the implementation's line is first judged against the "
             "property alone (sorted, permutation, equal to stable order, no leak).",
     "exhaustive": False,
+    "api_surface": API_SURFACE,
+    "hardware_concurrency": hw,
     "samples": samples,
     "input_distribution": dict(stats, **{"source_" + k: v for k, v in hist.items()},
                                **{"pattern_%d" % k: v for k, v in sorted(pat_hist.items())}),
